@@ -70,9 +70,24 @@ def run(ctx):
     check_writers(ctx, 'C15.2', PL, 'connections', [('Plugin.__init__', lambda w: w.fresh), ('Plugin.open_connection', lambda w: w.kind == 'substore'),
                                                     ('Plugin.close_connection', lambda w: w.kind == 'subdel' or (w.kind == 'mutate' and w.via == 'pop'))], floor=3)
     f_id = repo.func('extract.connection_id_of')
+    from ..peval import fold, Unfoldable
+    cp = f_id.params()[0]
     for p in paths_of(repo, f_id):
-        ctx.check(p.outcome[0] == 'return' and norm(p.outcome[1]) == "'gdb_conn:' + hex(int(connection))", 'C15.2', 'identity:address-only', f_id.loc(),
-                  'a connection\'s identity is its address only', 'identity is %s' % p.outcome_text()[:80])
+        ok = p.outcome[0] == 'return'
+        got = []
+        if ok:
+            names = {x.id for x in ast.walk(p.outcome[1]) if isinstance(x, ast.Name)} - {'int', 'hex', 'str', 'format', cp}
+            if names:
+                ok = False          # the identity depends on something besides the connection's address
+                got = ['depends on %s' % sorted(names)]
+            else:
+                try:
+                    got = [fold(p.outcome[1], {cp: v}) for v in (0x10, 0x7f12abc0, 0x7f12abc8)]
+                except Unfoldable as ex_:
+                    raise AnalysisError('C15.2: cannot fold the connection identity %s: %s' % (norm(p.outcome[1])[:80], ex_))
+                ok = len(set(got)) == 3 and all(isinstance(g_, str) for g_ in got)
+        ctx.check(ok, 'C15.2', 'identity:address-only', f_id.loc(), 'a connection is identified by the address of its wl_connection and by nothing else (distinct addresses give distinct ids)',
+                  'connection identity is %s (for three addresses: %s)' % (p.outcome_text()[:100], got))
     f_dstop = repo.func('WlConnectionDestroyBreakpoint.stop')
     for p in paths_of(repo, f_dstop):
         cl = [e for e in p.events if e.kind == 'call' and e.ftext == 'self.plugin.close_connection']
